@@ -74,9 +74,76 @@ def _exact_reach(m, root):
     return seen
 
 
+# (d) order dependencies (each confirmed by reading what the later function reads / the earlier one establishes)
+INIT_ORDER = [
+    ('CODictInit', 'COSdoInit', 'COSdoInit enables the servers from 1200h.. (dictionary lookups)'),
+    ('CODictInit', 'COCSdoInit', 'COCSdoInit enables the clients from 1280h..'),
+    ('CODictInit', 'COEmcyInit', 'COEmcyInit looks up 1001h / 1014h'),
+    ('CODictInit', 'CODictObjInit', 'the object initialisers walk the dictionary'),
+    ('COTmrInit', 'CODictObjInit', 'type initialisers (1016h, 1017h, 1005h/1006h) create timer actions'),
+    ('CONmtInit', 'CODictObjInit', 'CONmtInit drops the heartbeat consumer chain and the producer handle the initialisers establish'),
+    ('COSyncInit', 'CODictObjInit', 'COSyncInit zeroes the cached SYNC identifier and producer handle the initialisers establish'),
+    ('COLssLoad', 'COSdoInit', 'the stored node id must be in place before node-id relative identifiers are read'),
+    ('COLssLoad', 'COCSdoInit', 'the stored node id must be in place before node-id relative identifiers are read'),
+]
+RESET_ORDER = [
+    ('COObjReset', 'COSdoInit', 'reloaded communication parameters must be in RAM before the servers re-read their identifiers'),
+    ('COObjReset', 'COSyncInit', 'reloaded communication parameters first'),
+    ('COTmrClear', 'CONmtInit', 'stack timers are deleted before the handles are re-initialised'),
+    ('COTmrClear', 'COSyncInit', 'stack timers are deleted before the handles are re-initialised'),
+    ('COSdoInit', 'CONmtBootup', 'the boot-up frame announces a node whose services are initialised'),
+    ('COSyncInit', 'CONmtBootup', 'the boot-up frame announces a node whose services are initialised'),
+    ('COEmcyReset', 'CONmtBootup', 'emergencies are cleared before the node announces itself'),
+    ('COIfCanReset', 'CONmtBootup', 'a boot-up frame handed to the controller before it is reset is lost'),
+]
+
+
+def order(ctx):
+    m = ctx.m
+    for (f, table, inputs, last) in (
+            ('CONodeInit', INIT_ORDER, {'node': 1, 'spec': 1, 'call:CODictInit': 5, 'call:COLssLoad': 0, 'call:CODictObjInit': 0}, ()),
+            ('CONmtReset', RESET_ORDER, {'nmt': 1, 'type': m.enum('CO_RESET_COM'), 'call:CODictFind': 1, 'call:COObjReset': 0,
+                                         'call:COLssLoad': 0}, ('CONmtBootup',))):
+        pe = PEval(m, f)
+        pe.record_sets = False
+        pe.store_filter = lambda k, fld: False
+        trs = pe.run(inputs)
+        for (a, b, why) in table:
+            if a not in m.funcs and a not in ('COObjReset',):
+                continue          # service compiled out in this configuration
+            if (a.startswith('COLss') and not getattr(m, 'has_lss', True)) or (b.startswith('COCSdo') and not getattr(m, 'has_csdo', True)):
+                continue
+            if b not in m.funcs:
+                continue
+            site = '%s: %s before %s' % (f, a, b)
+            bad = None
+            seen_both = False
+            for t in trs:
+                names = t.call_names()
+                if a in names and b in names:
+                    seen_both = True
+                    ia = names.index(a)
+                    ib = (len(names) - 1 - names[::-1].index(b)) if b in last else names.index(b)
+                    if ia > ib:
+                        bad = '%s runs before %s' % (b, a)
+                elif b in names and a not in names and a != 'COObjReset':
+                    bad = '%s runs on a path without %s' % (b, a)
+            if bad:
+                ctx.ob(P, 'RF9d', f, site, None)
+                # what is initialised in the wrong order belongs to these services as well
+                extra = {'CODictObjInit': ['C10', 'C11', 'C16', 'C06'], 'COSdoInit': ['C05'], 'COCSdoInit': ['C19'], 'COEmcyInit': ['C15'],
+                         'COSyncInit': ['C16'], 'CONmtBootup': ['C09']}.get(b, [])
+                ctx.find(P + extra, 'RF9d', f, 'order:%s<%s' % (a, b), m.loc(f, m.funcs[f].line), '%s: %s (%s)' % (site, bad, why))
+            elif seen_both:
+                ctx.ob(P, 'RF9d', f, site, why)
+            else:
+                ctx.ob(P, 'RF9d', f, site, 'not both on a path (nothing to order)', nontrivial=False)
+
+
 def run(ctx):
     m = ctx.m
     m.need('CONodeInit', 'CONmtReset', 'COTmrInit')
+    order(ctx)
     init_reach = m.reachable_funcs(['CONodeInit'])
     # the initialisation side includes every type initialiser stored in a CO_OBJ_TYPE.Init slot
     init_eff = _effects(m, init_reach)
